@@ -550,6 +550,12 @@ func (s *Sim) judgeUpdate(o *kit.Outcome, m *opMeta, cur *Parsed, now time.Time)
 	ok := o.OK()
 	if ok && belowHighLevel && len(why) == 0 {
 		s.inc("C24", "note_adjacent_header_accepted_below_trust_level_above_two_thirds")
+		if s.Focus == "C24" && s.C.Observed["note_adjacent_header_accepted_below_trust_level_above_two_thirds"] == 1 {
+			tset := setFromProto(h.TrustedValidators)
+			sg, tot := validPower(h, tset, prev.CS.ChainId)
+			s.C.Note(fmt.Sprintf("observation (not raised, inside CometBFT's adjacent verification = trusted base): client %s with trust level %d/%d accepted the adjacent header %s signed by %d/%d of the trusted set (more than 2/3 but below the trust level)",
+				sub.ID, prev.CS.TrustLevel.Numerator, prev.CS.TrustLevel.Denominator, hdrString(h), sg, tot))
+		}
 	}
 	s.inc("", "client_messages")
 	s.inc("", "update_"+class+"_"+outcome(o))
@@ -670,9 +676,15 @@ func (s *Sim) judgeMisb(o *kit.Outcome, m *opMeta, cur *Parsed, now time.Time) {
 		for _, h := range []*ibctm.Header{m.misb.Header1, m.misb.Header2} {
 			if hdrH(h).R != h.TrustedHeight.RevisionNumber {
 				s.inc("C24", "note_misbehaviour_froze_with_cross_revision_header")
+				if s.Focus == "C24" && s.C.Observed["note_misbehaviour_froze_with_cross_revision_header"] == 1 {
+					s.C.Note(fmt.Sprintf("observation (not raised: revision and clock-drift conditions are applied to updates only, by design of the misbehaviour path): client %s frozen by misbehaviour whose header %s is in another revision than its trusted height", sub.ID, hdrString(h)))
+				}
 			}
 			if h.Header.Time.After(now.Add(prev.CS.MaxClockDrift)) {
 				s.inc("C24", "note_misbehaviour_froze_with_header_beyond_clock_drift")
+				if s.Focus == "C24" && s.C.Observed["note_misbehaviour_froze_with_header_beyond_clock_drift"] == 1 {
+					s.C.Note(fmt.Sprintf("observation (not raised, see above): client %s frozen at block time %s by misbehaviour whose header %s lies beyond the max clock drift %s", sub.ID, now.UTC().Format(time.RFC3339Nano), hdrString(h), prev.CS.MaxClockDrift))
+				}
 			}
 		}
 	} else if conflict && !prev.Frozen() {
